@@ -70,7 +70,8 @@ fn comment_file(lang: &str, rng: &mut Rng) -> B {
         match rng.below(6) {
             0 | 1 => { code_line(lang, fill, &mut b); last_was_comment = false; }
             2 | 3 => {
-                // one or two comment lines
+                // one or two comment lines (sometimes a doc-comment leader)
+                let lead = if block && lead == "// " && rng.chance(1, 3) { if matches!(lang, "rust") && rng.chance(1, 2) { "//! " } else { "/// " } } else { lead };
                 for _ in 0..rng.range(1, 2) {
                     b.nonprose("leader", &format!("{indent}{lead}"));
                     { let k = rng.range(2, 5); b.prose_words(rng, k); }
@@ -79,9 +80,18 @@ fn comment_file(lang: &str, rng: &mut Rng) -> B {
                 last_was_comment = true;
             }
             4 if block => {
-                b.nonprose("leader", &format!("{indent}/* "));
-                { let k = rng.range(2, 4); b.prose_words(rng, k); }
-                b.nonprose("leader", " */\n");
+                if rng.chance(1, 2) {
+                    b.nonprose("leader", &format!("{indent}/* "));
+                    { let k = rng.range(2, 4); b.prose_words(rng, k); }
+                    b.nonprose("leader", " */\n");
+                } else {
+                    // documentation block with ` * ` line leaders
+                    b.nonprose("leader", &format!("{indent}/**\n{indent} * "));
+                    { let k = rng.range(2, 4); b.prose_words(rng, k); }
+                    b.nonprose("leader", &format!("\n{indent} * "));
+                    { let k = rng.range(2, 3); b.prose_words(rng, k); }
+                    b.nonprose("leader", &format!("\n{indent} */\n"));
+                }
                 last_was_comment = true;
             }
             _ => {
@@ -200,8 +210,25 @@ pub fn render(lang: &str, seed: u64) -> String {
     }
 }
 
+/// The same file with CRLF line ends: every offset moves by the number of line feeds before it.
+fn to_crlf(b: &B) -> B {
+    let chars: Vec<char> = b.text.chars().collect();
+    let mut nl_before = vec![0usize; chars.len() + 1];
+    for i in 0..chars.len() { nl_before[i + 1] = nl_before[i] + if chars[i] == '\n' { 1 } else { 0 }; }
+    let sh = |p: u64| -> u64 { p + nl_before[p as usize] as u64 };
+    let mut out = B::new();
+    out.text = b.text.replace('\n', "\r\n");
+    out.nchars = out.text.chars().count();
+    out.segs = b.segs.iter().map(|s| json!({"kind": s["kind"], "s": sh(s["s"].as_u64().unwrap()), "e": sh(s["e"].as_u64().unwrap())})).collect();
+    out.prose = b.prose.iter().map(|p| json!({"w": p["w"], "s": sh(p["s"].as_u64().unwrap())})).collect();
+    out.forbidden = b.forbidden.clone();
+    out
+}
+
 fn event(lang: &str, b: &B, crlf: bool) -> Value {
-    let text = if crlf { b.text.clone() } else { b.text.clone() };
+    let converted;
+    let b = if crlf { converted = to_crlf(b); &converted } else { b };
+    let text = b.text.clone();
     let parser = front::base_parser(lang).unwrap();
     match catch(|| front::doc_with(&text, &parser)) {
         Err(p) => json!({"ev": "SrcPanic", "lang": lang, "text": text, "loc": p}),
@@ -234,7 +261,9 @@ pub fn main(a: &Args) {
             "git-commit" => commit_file(&mut rng),
             l => comment_file(l, &mut rng),
         };
-        event(lang, &b, false)
+        // CRLF line ends for a quarter of the files (not for formats whose line handling is LF-only by design)
+        let crlf = *s % 4 == 3 && !matches!(lang.as_str(), "lhaskell" | "git-commit");
+        event(lang, &b, crlf)
     });
     for e in evs { out.emit(&e); }
     println!("{}", json!({"events": out.finish()}));
